@@ -19,6 +19,7 @@ func main() {
 	trace := flag.Bool("trace", false, "")
 	logsmt := flag.String("logsmt", "", "")
 	maxPaths := flag.Int("maxpaths", 100000, "")
+	params := flag.String("params", "", "k=v,k=v")
 	flag.Parse()
 	ov, err := symex.ReadOverlayDir(*hdir, *repo)
 	if err != nil {
@@ -37,7 +38,15 @@ func main() {
 		fmt.Fprintln(os.Stderr, "no such function", *entry)
 		os.Exit(2)
 	}
-	res := in.Explore(symex.ExploreConfig{Entry: fn, Workers: *workers, LogSMT: *logsmt, MaxPaths: *maxPaths, KeepFuncs: true})
+	pm := map[string]int64{}
+	for _, kv := range strings.Split(*params, ",") {
+		if i := strings.Index(kv, "="); i > 0 {
+			var v int64
+			fmt.Sscan(kv[i+1:], &v)
+			pm[kv[:i]] = v
+		}
+	}
+	res := in.Explore(symex.ExploreConfig{Params: pm, Entry: fn, Workers: *workers, LogSMT: *logsmt, MaxPaths: *maxPaths, KeepFuncs: true})
 	for _, p := range res.Paths {
 		b, _ := json.Marshal(struct {
 			D []int64
